@@ -185,6 +185,11 @@ func NewWorldCaptured(i, mode int, filename string, captured [][]byte, reset boo
 				s.VerifDeleteHost(a.IP)
 			}
 		}
+		// the two entries a new session starts with: a history may have deleted them or given their address to a
+		// client (host / nohost steps; in h29same the host address is inside the pool's prefix) - a world that started
+		// from what the previous history left explores other states than the same history replayed in a new process
+		s.VerifSetHost(c.Host, sess.HostMAC)
+		s.VerifSetHost(c.Router, sess.RouterMAC)
 	}
 	for _, m := range captured {
 		s.Capture(net.HardwareAddr(m))
